@@ -1,4 +1,5 @@
 import Cinco.Props.C04
+import Cinco.Props.C05
 import Cinco.Props.C07
 import Cinco.Props.C08
 import Cinco.Props.C09
